@@ -72,6 +72,38 @@ func c13Enumerate(r *Rand, wseed uint64, nA, p, nB, h int, emit func(c13Case)) {
 			}
 		}
 	}
+	// concurrent shapes (scheduler): (a) ONE client, two goroutines, split-view server answering one lookup from A@a and
+	// the other from B@b; (b) TWO clients on the shared configuration, one served A@a, the other B@b.
+	// Exactly one lookup per client instance and log, so that the recorded no-rollback finding cannot arise here.
+	if nA > p && nB > p {
+		for k := 0; k < 3; k++ {
+			a, b := p+1+pick(nA-p), p+1+pick(nB-p)
+			jb := -1
+			for tries := 0; tries < 8 && jb < 0; tries++ {
+				j := p + pick(b-p)
+				if _, dup := w.A.byKey[w.B.recs[j].key()]; !dup {
+					jb = j
+				}
+			}
+			if jb < 0 {
+				continue
+			}
+			ia := pick(a)
+			bp, ok := clLookupFile(w.B.recs[jb].path, w.B.recs[jb].vers)
+			if !ok {
+				continue
+			}
+			cfg := "cfg=empty"
+			if p >= 1 {
+				cfg = fmt.Sprintf("cfg=A@%d", p)
+			}
+			strat := []string{"memrace", "rand", "conflict", "rr", "last", "canon"}[pick(6)]
+			emit(c13Case{fmt.Sprintf("%s %s srv=A@%d f+=P%s/src/B@%d f+=T*/split/B@%d new=0 par=%s:%d:0.A%d,0.B%d", head, cfg, a, hx(bp), b, b, strat, pick(100000), ia, jb),
+				"concurrent/one-client/" + c13Rel(a, b, p)})
+			emit(c13Case{fmt.Sprintf("%s %s srv=A@%d srvc=1:B@%d new=0:0 new=1:1 par=%s:%d:0.A%d,1.B%d", head, cfg, a, b, strat, pick(100000), ia, jb),
+				"concurrent/two-clients/" + c13Rel(a, b, p)})
+		}
+	}
 	// stale replays on one log: the head may be old, equal, new; never a regression
 	for k := 0; k < 4; k++ {
 		a, b := 1+pick(nA), 1+pick(nA)
@@ -298,6 +330,52 @@ func c13Judge(g *Gen, c c13Case) {
 	clReport(g, clCheckSecurity(out), sc)
 	clReport(g, clCheckAuthentic(out), sc)
 	clReport(g, c13CheckFork(g, out), sc)
+	clReport(g, c13CheckConcurrent(g, out), sc)
+}
+
+// c13CheckConcurrent: scheduled batches (one lookup per client instance and log).  "Two mutually inconsistent signed
+// trees are never both accepted": the heads presented to the successful lookups of one instance are pairwise
+// consistent, and each is consistent with the stored head the run ends with.
+func c13CheckConcurrent(g *Gen, out *clOutcome) []clFinding {
+	var fs []clFinding
+	w := out.w
+	final := w.classifyHead(out.env.config[clName+"/latest"])
+	accepted := map[int][]clHead{}
+	for _, lk := range out.looks {
+		if lk.g == "s" || lk.kind != "ok" {
+			continue
+		}
+		remote, ok := clLookupFile(lk.path, lk.vers)
+		if !ok {
+			continue
+		}
+		var presented []byte
+		for _, ev := range out.env.trace {
+			if ev.Seq >= lk.to {
+				break
+			}
+			if ev.C == lk.c && ev.Err == "" && ((ev.Kind == "rc" && ev.File == clName+remote) || (ev.Kind == "rr" && ev.File == remote)) {
+				if _, _, rest, err := tlog.ParseRecord(ev.Data); err == nil {
+					presented = rest
+				}
+			}
+		}
+		ph := w.classifyHead(presented)
+		if len(presented) == 0 || !ph.valid {
+			continue
+		}
+		g.st.OracleTags["concurrent-accepted"]++
+		for _, o := range accepted[lk.c] {
+			if !w.prefixOf(o, ph) && !w.prefixOf(ph, o) {
+				fs = append(fs, clFinding{"C13 one client instance accepted two mutually inconsistent signed trees", fmt.Sprintf("%d and %d", o.n, ph.n)})
+			}
+		}
+		accepted[lk.c] = append(accepted[lk.c], ph)
+		if final.valid && !w.prefixOf(ph, final) && !w.prefixOf(final, ph) {
+			fs = append(fs, clFinding{"C13 lookup on a tree inconsistent with the shared stored head succeeded without any security report", lk.key})
+		}
+	}
+	return fs
 }
 
 func c13Cases(g *Gen) []c13Case {
@@ -344,6 +422,8 @@ func c13Oracle(g *Gen, n int) {
 	}
 	// fixed regression: F6' (client restarted at tree#2 of A, shown tree#7 of a fork with A's first two leaf hashes spliced in)
 	c13Judge(g, c13Case{"client.run w=1:7:2:7 h=2 srv=A@2 new=0 look=0:A0 srv=B@7 new=0 look=0:B5 look=0:B5m", "regression/F6prime"})
+	// the recorded known finding (no rollback after a failed reconciliation), minimal form: must keep reproducing
+	c13Judge(g, c13Case{"client.run w=656:5:3:8 h=1 srv=A@3 new=1 look=1:A2 cfg=A@5 srv=B@4,B@8 look=1:B3 look=1:B0", "known/no-rollback"})
 }
 
 func c13Gen(g *Gen, n int) {
